@@ -90,6 +90,8 @@ class C06(Prop):
             "prelude": gen.prelude(),
             # a second live connection in the same process (interleaved with this one, or blocked in a send)
             "companion": gen.companion(),
+            # calls with unsendable arguments that the application tries (and whose error it catches) on the way
+            "noise_calls": gen.noise_calls(),
             # connect() options that must not matter here
             "copts_noise": gen.copts_noise(("poll", "ping_timeout", "close_timeout",)),
         })
